@@ -471,15 +471,18 @@ func (p *parser) parsePrimary() (*SExpr, error) {
 // ---------------------------------------------------------------- contracts
 
 type Clause struct {
-	Tag  string
-	Expr *SExpr
-	Src  string
+	Tag     string
+	Expr    *SExpr
+	Src     string
+	Trusted bool // trustyields: assumed at call sites, not an obligation on the iterator's body
 }
 
 type Contract struct {
 	Pkg      string // import path
 	Target   string // "(*State).Get", "NewState", "txDeliverer$1"
 	Trusted  bool   // "assume func": contract is assumed, body not verified
+	View     string // "func F view <name>": an extra proof of the same body with its own invariants; callers never see it
+	CalleeTrusts map[string][]Clause // calleetrusts <callee> :: <expr>: extra trusted postcondition of a callee, in this body only
 	Requires []Clause
 	Ensures  []Clause
 	Trusts   []Clause // postconditions assumed by callers and NOT checked on the body (per-clause trust)
@@ -628,7 +631,7 @@ func ParseContractFile(path, pkg string) (*ContractFile, error) {
 		body := strings.TrimPrefix(t, "//@")
 		lines = append(lines, ln{body, i + 1})
 	}
-	keywords := []string{"trustframe", "longlived", "maywrite", "trusts", "mustcall", "theorem", "opaque-arith", "nowrite", "aimalso", "aimexempt", "aimcheck", "assumes", "exports", "dyncalls", "claims", "grants", "forbids", "footprint", "iterator", "count", "update", "func", "assume", "interface", "method", "requires", "ensures", "modifies", "invariant", "safety", "ghost", "model", "repr", "axiom", "implements", "lemma", "yields", "property", "noinline", "const", "expands", "inline"}
+	keywords := []string{"trustframe", "trustyields", "calleetrusts", "longlived", "maywrite", "trusts", "mustcall", "theorem", "opaque-arith", "nowrite", "aimalso", "aimexempt", "aimcheck", "assumes", "exports", "dyncalls", "claims", "grants", "forbids", "footprint", "iterator", "count", "update", "func", "assume", "interface", "method", "requires", "ensures", "modifies", "invariant", "safety", "ghost", "model", "repr", "axiom", "implements", "lemma", "yields", "property", "noinline", "const", "expands", "inline"}
 	isKw := func(s string) bool {
 		f := strings.Fields(s)
 		if len(f) == 0 {
@@ -685,7 +688,12 @@ func ParseContractFile(path, pkg string) (*ContractFile, error) {
 				rest = strings.TrimSpace(strings.TrimPrefix(strings.TrimSpace(strings.TrimPrefix(rest, "extern ")), "func"))
 			}
 			name, _ := splitTag(rest)
-			cur = &Contract{Pkg: pkg, Target: name, Trusted: trusted, Invs: map[string][]Clause{}, File: path, Line: l.n}
+			view := ""
+			if i := strings.Index(name, " view "); i > 0 {
+				view = strings.TrimSpace(name[i+6:])
+				name = strings.TrimSpace(name[:i])
+			}
+			cur = &Contract{Pkg: pkg, Target: name, Trusted: trusted, View: view, Invs: map[string][]Clause{}, File: path, Line: l.n}
 			if strings.Contains(name, "/") || externMark {
 				// function of a dependency, given by its full name, e.g.
 				// github.com/ethereum/go-ethereum/core.(*GasPool).SubGas — always assumed
@@ -706,7 +714,7 @@ func ParseContractFile(path, pkg string) (*ContractFile, error) {
 			name, _ := splitTag(rest)
 			cur = &Contract{Pkg: pkg, Target: curIface.Name + "." + name, Invs: map[string][]Clause{}, File: path, Line: l.n}
 			curIface.Methods[name] = cur
-		case "requires", "ensures", "lemma", "yields", "claims", "exports", "assumes", "trusts":
+		case "requires", "ensures", "lemma", "yields", "trustyields", "claims", "exports", "assumes", "trusts":
 			if cur == nil {
 				return nil, fail(l, fmt.Errorf("%s outside func", kw))
 			}
@@ -733,7 +741,34 @@ func ParseContractFile(path, pkg string) (*ContractFile, error) {
 				cur.Lemmas = append(cur.Lemmas, c)
 			case "yields":
 				cur.Yields = append(cur.Yields, c)
+			case "trustyields":
+				c.Trusted = true
+				cur.Yields = append(cur.Yields, c)
 			}
+		case "calleetrusts":
+			if cur == nil {
+				return nil, fail(l, fmt.Errorf("calleetrusts outside func"))
+			}
+			es, tag := splitTag(rest)
+			i := strings.Index(es, "::")
+			if i < 0 {
+				return nil, fail(l, fmt.Errorf("calleetrusts <callee> :: <expr>"))
+			}
+			callee := strings.ReplaceAll(strings.TrimSpace(es[:i]), " ", "")
+			body := strings.TrimSpace(es[i+2:])
+			isMod := strings.HasPrefix(body, "modifies ")
+			if isMod {
+				// calleetrusts F :: modifies <loc>: the callee's frame is widened by a (ghost) location in this body
+				body = strings.TrimSpace(strings.TrimPrefix(body, "modifies "))
+			}
+			e, err := ParseExpr(body)
+			if err != nil {
+				return nil, fail(l, err)
+			}
+			if cur.CalleeTrusts == nil {
+				cur.CalleeTrusts = map[string][]Clause{}
+			}
+			cur.CalleeTrusts[callee] = append(cur.CalleeTrusts[callee], Clause{Tag: tag, Expr: e, Src: strings.TrimSpace(es[i+2:]), Trusted: isMod})
 		case "modifies":
 			if cur == nil {
 				return nil, fail(l, fmt.Errorf("modifies outside func"))
